@@ -33,6 +33,7 @@ type sessCfg struct {
 	AckNoDelay bool `json:"acknodelay"`
 	Retune     bool `json:"retune,omitempty"` // SetNoDelay(-1, ...) follows: "leave the mode as it is"
 	RateLimit  int  `json:"ratelimit,omitempty"` // bytes/s for SetRateLimit; -1: SetRateLimit(0) ("disabled") is called; 0: never called
+	Dup        int  `json:"dup,omitempty"`       // SetDUP: extra copies of every data datagram (deprecated knob, still there)
 }
 
 func (c sessCfg) minRTO() uint32 {
@@ -361,7 +362,7 @@ func (w *sessWorld) watch(s *UDPSession, name string, from, to net.Addr, cfg ses
 		fd, fp = w.link.serverFEC()
 	}
 	wc := wireCfg{name: name, spec: cipherByName(w.link.Cipher), key: w.key, fec: fd > 0 && fp > 0, d: fd, p: fp,
-		conv: s.GetConv(), mtu: func() int { return int(m.mtuNow.Load()) }, stream: stream, cleanUntilMs: w.cleanUntilMs}
+		conv: s.GetConv(), mtu: func() int { return int(m.mtuNow.Load()) }, stream: stream, cleanUntilMs: w.cleanUntilMs, dup: cfg.Dup}
 	f := newWireFlow(wc, func(key, detail string) {
 		w.nviol.Add(1)
 		w.rec.violation(key, fmt.Sprintf("t=%dms ", w.hub.nowMs())+detail, w.desc)
@@ -389,6 +390,9 @@ func applySessCfg(s *UDPSession, c sessCfg) bool {
 		s.SetRateLimit(0)
 	case c.RateLimit > 0:
 		s.SetRateLimit(uint32(c.RateLimit))
+	}
+	if c.Dup > 0 {
+		s.SetDUP(c.Dup)
 	}
 	s.SetStreamMode(c.Stream)
 	s.SetWriteDelay(c.WriteDelay)
@@ -422,6 +426,15 @@ func (w *sessWorld) shutdown(order []string, leakCheck bool) {
 				for _, s := range acc {
 					s.Close()
 				}
+			}
+		case "own-sessions":
+			// only the sessions the application holds (dialled or accepted): what the
+			// listener created and nobody accepted is the listener's to release
+			w.mu.Lock()
+			ss := append([]*UDPSession(nil), w.sessions...)
+			w.mu.Unlock()
+			for _, s := range ss {
+				s.Close()
 			}
 		case "listener":
 			if w.listener != nil {
